@@ -209,5 +209,60 @@ theorem chunk_flags (C : Nat) (hC : 0 < C) : ∀ (fuel i : Nat) (p : Bytes), p.l
 example : (encryptHeader Prims.toy (List.replicate 100 7)
     [Recipient.x25519 (List.replicate 32 0), Recipient.sshEd [1] (List.replicate 32 3)]).isOk = true := by decide
 
+/-! ## non-vacuity witnesses (toy primitives; the tape is 0, 1, 2, … so that every slice is recognisable) -/
+
+/-- non-vacuity of `wrapOne_consumes`: a passphrase recipient (work factor 10) wraps a 16-byte file key from a 40-byte
+    tape, drawing 16 bytes of salt and 16 bytes of label and leaving the last 8 -/
+theorem wrapOne_consumes_nonvacuous :
+    wrapOne Prims.toy (.scrypt [112, 119] 10) (List.replicate 16 4) ((List.range 40).map Nat.toUInt8) =
+      .ok (some ([wrapScrypt Prims.toy [112, 119] 10 ((List.range 16).map Nat.toUInt8) (List.replicate 16 4)],
+                 [hexLower ((List.range' 16 16).map Nat.toUInt8)]), [32, 33, 34, 35, 36, 37, 38, 39]) := rfl
+
+/-- non-vacuity of `tape_linear`: a 100-byte tape, an X25519 and an ssh-ed25519 recipient: file key = bytes 0..15,
+    two 32-byte draws, 20 bytes left -/
+theorem tape_linear_nonvacuous :
+    ∃ st, encryptHeader Prims.toy ((List.range 100).map Nat.toUInt8)
+      [Recipient.x25519 (List.replicate 32 0), Recipient.sshEd [1] (List.replicate 32 3)] =
+        .ok ((List.range 16).map Nat.toUInt8, st, (List.range' 80 20).map Nat.toUInt8) := ⟨_, rfl⟩
+
+/-- non-vacuity of `x25519_secret_is_slice`: an X25519 recipient wraps from a 40-byte tape, leaving the last 8 bytes -/
+theorem x25519_secret_is_slice_nonvacuous :
+    ∃ st, wrapOne Prims.toy (.x25519 (List.replicate 32 5)) (List.replicate 16 4) ((List.range 40).map Nat.toUInt8) =
+      .ok (some ([st], []), [32, 33, 34, 35, 36, 37, 38, 39]) := ⟨_, rfl⟩
+
+/-- non-vacuity of `two_files_disjoint`: one 120-byte tape; file 1 (an X25519 recipient) uses bytes 0..47 and the
+    nonce 48..63, file 2 (a passphrase recipient) starts at byte 64 and leaves the last 8 -/
+theorem two_files_disjoint_nonvacuous :
+    ∃ st₁ st₂,
+      encryptHeader Prims.toy ((List.range 120).map Nat.toUInt8) [Recipient.x25519 (List.replicate 32 0)] =
+        .ok ((List.range 16).map Nat.toUInt8, st₁, (List.range' 48 72).map Nat.toUInt8) ∧
+      draw streamNonceSize ((List.range' 48 72).map Nat.toUInt8) =
+        some ((List.range' 48 16).map Nat.toUInt8, (List.range' 64 56).map Nat.toUInt8) ∧
+      encryptHeader Prims.toy ((List.range' 64 56).map Nat.toUInt8) [Recipient.scrypt [112] 10] =
+        .ok ((List.range' 64 16).map Nat.toUInt8, st₂, (List.range' 112 8).map Nat.toUInt8) := ⟨_, _, rfl, rfl, rfl⟩
+
+/-- non-vacuity of `secrets_independent_of_plaintext`: the same tape and recipient, a 5-byte and a 9-byte plaintext
+    (two and three chunks of 4) -/
+theorem secrets_independent_of_plaintext_nonvacuous :
+    ∃ f₁ f₂,
+      encryptFile Prims.toy 4 ((List.range 100).map Nat.toUInt8) [Recipient.x25519 (List.replicate 32 0)] [1, 2, 3, 4, 5] = .ok f₁ ∧
+      encryptFile Prims.toy 4 ((List.range 100).map Nat.toUInt8) [Recipient.x25519 (List.replicate 32 0)] [9, 8, 7, 6, 5, 4, 3, 2, 1] = .ok f₂ :=
+  ⟨_, _, rfl, rfl⟩
+
+/-- non-vacuity of `chunk_nonces_distinct`: 9 bytes in chunks of 4 from counter 0 with fuel 10: three sealed pairs -/
+theorem chunk_nonces_distinct_nonvacuous :
+    0 + 10 < 2 ^ 88 ∧ (sealedFrom 4 0 [1, 2, 3, 4, 5, 6, 7, 8, 9] 10).length = 3 := ⟨by decide, rfl⟩
+
+/-- non-vacuity of `chunk_flags`: chunk size 4, a 9-byte plaintext, fuel 10 (what `encrypt` passes) -/
+theorem chunk_flags_nonvacuous : 0 < 4 ∧ ([1, 2, 3, 4, 5, 6, 7, 8, 9] : Bytes).length < 10 := ⟨by decide, by decide⟩
+
+/-- the conclusions of `tape_linear` and `chunk_flags` at those witnesses -/
+example : ∃ used : Bytes, (List.range 100).map Nat.toUInt8 =
+    (List.range 16).map Nat.toUInt8 ++ used ++ (List.range' 80 20).map Nat.toUInt8 ∧ used.length = 64 := by
+  obtain ⟨st, h⟩ := tape_linear_nonvacuous
+  obtain ⟨used, h1, _, h3⟩ := tape_linear _ _ _ _ _ _ h
+  exact ⟨used, h1, h3⟩
+example : (sealedFrom 4 0 [1, 2, 3, 4, 5, 6, 7, 8, 9] 10).map (·.1) = [nonce 0 false, nonce 1 false, nonce 2 true] := rfl
+
 end Props.C06
 end AgeModel
